@@ -1339,7 +1339,8 @@ fn utf8_decode(slice: &[u8]) -> char {
         code <<= 6;
         code |= (*byte as u32) & 63;
     }
-    unsafe { std::char::from_u32_unchecked(code) }
+    // grammar does not exclude surrogates and code points above 0x10FFFF
+    char::from_u32(code).unwrap_or(char::REPLACEMENT_CHARACTER)
 }
 
 #[derive(Debug, Clone, Copy)]
